@@ -21,7 +21,7 @@
        the creation of the first dangerous link.  What can follow it is exactly the
        known finding. *)
 From Lhasa Require Import Base Loop Generated Header Fs FsRun Glob Reader CliExtract CliMain InputStream ListOut
-  P_CliSafe P_CliOrder P_FsConfine P_CliPath P_CliConfine P_CliConfineAll.
+  P_CliSafe P_CliOrder P_FsConfine P_CliPath P_CliConfine P_CliConfineAll P_FsLinks P_CliPathLen P_CliConfineLate.
 Local Open Scope N_scope.
 
 (* ---- the deferred list: longest path first ---- *)
@@ -140,6 +140,100 @@ Proof. exact extract_trace_confined. Qed.
 Theorem extraction_paths_are_relative : forall (h : header) (o : lha_options), hdr_c11 h -> good_w o -> good_str (file_full_path h o).
 Proof. exact file_full_path_good. Qed.
 
+(* ---- confinement of the WHOLE run, final phase included (P_CliConfineLate) ----
+   Hypotheses: no symbolic link below the extraction directory R to begin with; w=DIR relative
+   without '..'; no symbolic-link member is extracted THROUGH a safe symbolic-link member (the
+   path of a safe link member is not a proper prefix of the path of a link member).  Then every
+   operation of the run -- the mkdir of parents, the unlink and the symlink of each deferred link
+   included -- resolved below R.  [presents]: the headers the extraction loop obtains. *)
+
+(* why longest-first is the right order: a link that stands at a directory position of M's
+   path has a strictly smaller key than M *)
+Theorem deferred_prefix_is_shorter : forall (o0 : lha_options) (A M : header), hdr_c11 A -> hdr_c11 M ->
+  creatable o0 A -> proper_prefix (pcomps o0 A) (pcomps o0 M) ->
+  file_header_path_len A < file_header_path_len M.
+Proof. exact prefix_is_shorter. Qed.
+
+(* a path that meets no link before its final component is resolved physically *)
+Theorem linkfree_path_is_physical : ltac:(let t := type of P_FsLinks.resolve_phys in exact t).
+Proof. exact P_FsLinks.resolve_phys. Qed.
+
+(* no safe link in the archive at all *)
+Theorem no_safe_links_confined : forall mktime junk (R : phys) (o0 : lha_options), good_w o0 ->
+  forall (flt : lha_filter) (st0 : cli_state) (strm : istream) (v : res bool) (st : cli_state),
+  fs_cwd (cs_fs st0) = R -> no_links_below R (fs_root (cs_fs st0)) ->
+  cs_opts st0 = o0 -> cs_reader st0 = lha_reader_new strm ->
+  (forall hd, presents mktime junk flt st0 hd -> forall t, h_symlink_target hd = Some t -> dangerous_target t = true) ->
+  extract_archive mktime junk flt st0 = Ok (v, st) ->
+  (exists new, fs_trace (cs_fs st) = new ++ fs_trace (cs_fs st0) /\ forall o, In o new -> below_op R o) /\
+  (forall suf t, Fs.node_at (fs_root (cs_fs st)) (R ++ suf) = Some (Link t) -> dangerous_target t = true).
+Proof. exact P_CliConfineLate.no_safe_links_confined. Qed.
+
+(* safe links allowed: [Mem] any set containing the presented headers *)
+Theorem whole_run_confined : forall mktime junk (R : phys) (o0 : lha_options), good_w o0 ->
+  forall (Mem : header -> Prop) (flt : lha_filter) (st0 : cli_state) (strm : istream) (v : res bool) (st : cli_state),
+  fs_cwd (cs_fs st0) = R -> no_links_below R (fs_root (cs_fs st0)) ->
+  cs_opts st0 = o0 -> cs_reader st0 = lha_reader_new strm ->
+  (forall hd, presents mktime junk flt st0 hd -> Mem hd) -> no_link_through_safe o0 Mem ->
+  extract_archive mktime junk flt st0 = Ok (v, st) ->
+  (exists new, fs_trace (cs_fs st) = new ++ fs_trace (cs_fs st0) /\ forall o, In o new -> below_op R o) /\
+  links_are_members R o0 Mem (fs_root (cs_fs st)).
+Proof. exact extract_confined_whole. Qed.
+
+(* safe links that were there before are allowed too, if no link member is extracted through one *)
+Theorem whole_run_confined_initial_links : forall mktime junk (R : phys) (o0 : lha_options), good_w o0 ->
+  forall (Mem : header -> Prop) (flt : lha_filter) (st0 : cli_state) (strm : istream) (v : res bool) (st : cli_state),
+  fs_cwd (cs_fs st0) = R -> initial_links_ok R o0 Mem (fs_root (cs_fs st0)) ->
+  cs_opts st0 = o0 -> cs_reader st0 = lha_reader_new strm ->
+  (forall hd, presents mktime junk flt st0 hd -> Mem hd) -> no_link_through_safe o0 Mem ->
+  extract_archive mktime junk flt st0 = Ok (v, st) ->
+  exists new, fs_trace (cs_fs st) = new ++ fs_trace (cs_fs st0) /\ forall o, In o new -> below_op R o.
+Proof. exact extract_confined_whole_init. Qed.
+
+(* the same with the hypothesis as a boolean test on a list of members (path, link target) *)
+Theorem whole_run_confined_by_test : forall mktime junk (R : phys) (o0 : lha_options), good_w o0 ->
+  forall (ms : list minfo) (flt : lha_filter) (st0 : cli_state) (strm : istream) (v : res bool) (st : cli_state),
+  fs_cwd (cs_fs st0) = R -> no_links_below R (fs_root (cs_fs st0)) ->
+  cs_opts st0 = o0 -> cs_reader st0 = lha_reader_new strm ->
+  (forall hd, presents mktime junk flt st0 hd -> In (msum o0 hd) ms) -> no_link_through_safe_b ms = true ->
+  extract_archive mktime junk flt st0 = Ok (v, st) ->
+  (exists new, fs_trace (cs_fs st) = new ++ fs_trace (cs_fs st0) /\ forall o, In o new -> below_op R o) /\
+  links_are_members R o0 (fun h => In (msum o0 h) ms) (fs_root (cs_fs st)).
+Proof. exact members_confined. Qed.
+
+(* the whole tool from argv, and the differential-test form *)
+Theorem lha_main_confined_whole : ltac:(let t := type of P_CliConfineLate.lha_main_confined_whole in exact t).
+Proof. exact P_CliConfineLate.lha_main_confined_whole. Qed.
+Theorem lha_main_no_safe_links_confined : ltac:(let t := type of P_CliConfineLate.lha_main_no_safe_links_confined in exact t).
+Proof. exact P_CliConfineLate.lha_main_no_safe_links_confined. Qed.
+Theorem cli_run_confined_whole : ltac:(let t := type of P_CliConfineLate.cli_run_confined_whole in exact t).
+Proof. exact P_CliConfineLate.cli_run_confined_whole. Qed.
+
+(* the presented headers of a concrete run can be computed *)
+Theorem presents_in_run_headers : ltac:(let t := type of P_CliConfineLate.presents_in_run_headers in exact t).
+Proof. exact P_CliConfineLate.presents_in_run_headers. Qed.
+
+(* non-vacuity: d/, d/f, d/x -> ../y, zz -> /outside, d/x -> /outside meets the hypotheses; the run evaluated *)
+Theorem late_phase_example : ltac:(let t := type of P_CliConfineLate.late_phase_example in exact t).
+Proof. exact P_CliConfineLate.late_phase_example. Qed.
+Theorem safe_link_example : ltac:(let t := type of P_CliConfineLate.safe_link_example in exact t).
+Proof. exact P_CliConfineLate.safe_link_example. Qed.
+Theorem initial_link_example : ltac:(let t := type of P_CliConfineLate.initial_link_example in exact t).
+Proof. exact P_CliConfineLate.initial_link_example. Qed.
+
+(* the hypotheses cannot be weakened to the obvious candidates (both evaluated on the model):
+   safe links in the INITIAL tree suffice for an escape without any safe link in the archive; a safe
+   link of the archive whose target is a plain directory suffices when a deferred link is extracted
+   through it (the test on link targets passes).  The witness of confinement_refuted fails both tests. *)
+Theorem safe_initial_links_refuted : ltac:(let t := type of P_CliConfineLate.safe_initial_links_refuted in exact t).
+Proof. exact P_CliConfineLate.safe_initial_links_refuted. Qed.
+Theorem target_test_refuted : ltac:(let t := type of P_CliConfineLate.target_test_refuted in exact t).
+Proof. exact P_CliConfineLate.target_test_refuted. Qed.
+Theorem escape_fails_both_tests : ltac:(let t := type of P_CliConfineLate.escape_fails_both_tests in exact t).
+Proof. exact P_CliConfineLate.escape_fails_both_tests. Qed.
+Example escape_archive_is_f5 : escape_archive = f5_archive.
+Proof. reflexivity. Qed.
+
 Print Assumptions insert_deferred_keeps_longest_first.
 Print Assumptions insert_deferred_adds_one.
 Print Assumptions confinement_refuted.
@@ -150,3 +244,20 @@ Print Assumptions dangerous_links_come_last.
 Print Assumptions final_component_is_not_followed.
 Print Assumptions confined_until_first_dangerous_link.
 Print Assumptions extraction_paths_are_relative.
+Print Assumptions deferred_prefix_is_shorter.
+Print Assumptions linkfree_path_is_physical.
+Print Assumptions no_safe_links_confined.
+Print Assumptions whole_run_confined.
+Print Assumptions whole_run_confined_initial_links.
+Print Assumptions whole_run_confined_by_test.
+Print Assumptions lha_main_confined_whole.
+Print Assumptions lha_main_no_safe_links_confined.
+Print Assumptions cli_run_confined_whole.
+Print Assumptions presents_in_run_headers.
+Print Assumptions late_phase_example.
+Print Assumptions safe_link_example.
+Print Assumptions initial_link_example.
+Print Assumptions safe_initial_links_refuted.
+Print Assumptions target_test_refuted.
+Print Assumptions escape_fails_both_tests.
+Print Assumptions escape_archive_is_f5.
